@@ -32,6 +32,10 @@ type Explorer struct {
 	// Check is the oracle for one execution; returning false stops the exploration.
 	Check    func(prefix []int32, r *vrt.Result) bool
 	MaxExecs int64
+	// Optional per-kind caps (0 = no cap besides the total bound): at most MaxSched preemptions and
+	// at most MaxMap map-order deviations in one execution.
+	MaxSched int
+	MaxMap   int
 	Stats    Stats
 	stop     bool
 	bound    int
@@ -51,7 +55,7 @@ func (e *Explorer) Explore(maxBound int) {
 	e.Stats.BoundDone = -1
 	for b := 0; b <= maxBound && !e.stop; b++ {
 		e.bound = b
-		e.explore(nil, 0, b)
+		e.explore(nil, 0, 0, b)
 		if e.stop {
 			break
 		}
@@ -62,7 +66,7 @@ func (e *Explorer) Explore(maxBound int) {
 // explore runs the execution for prefix; only executions whose cost is exactly `exact` are new in
 // this iteration of the bound (cheaper ones were explored by earlier iterations), but cheaper
 // executions still have to be re-run to reach their more expensive descendants.
-func (e *Explorer) explore(prefix []int32, cost int, exact int) {
+func (e *Explorer) explore(prefix []int32, cost int, mapCost int, exact int) {
 	if e.stop {
 		return
 	}
@@ -96,11 +100,20 @@ func (e *Explorer) explore(prefix []int32, cost int, exact int) {
 		if c > e.bound {
 			continue
 		}
+		mc := mapCost
+		if p.Kind == vrt.KindMap {
+			mc++
+			if e.MaxMap > 0 && mc > e.MaxMap {
+				continue
+			}
+		} else if e.MaxSched > 0 && c-mc > e.MaxSched {
+			continue
+		}
 		for alt := int32(1); alt < p.N; alt++ {
 			np := make([]int32, i+1)
 			copy(np, prefix)
 			np[i] = alt
-			e.explore(np, c, exact)
+			e.explore(np, c, mc, exact)
 			if e.stop {
 				return
 			}
